@@ -77,6 +77,9 @@ struct Cfg {
     pred: u8,
     /// string arguments with multi-byte characters
     wide: bool,
+    /// 1: the function's result type id is DECLARED as a 32-bit int; 2: declared as void; 3: the function was ended and
+    /// re-selected, the call goes into a block begun afterwards
+    fn_kind: u8,
     /// a second, terminated block exists behind the one the call is made into (with reselect_terminated: the FIRST block is re-selected)
     two_blocks: bool,
 }
@@ -130,7 +133,7 @@ fn check_site(site: &CallSite, cfg: &Cfg) -> SiteResult {
     let rep = json!({"kind": "builder-call", "method": site.name, "config": cfg_s, "cfg": {
         "explicit_id": cfg.explicit_id, "opt_upto": if cfg.opt_upto == usize::MAX { -1i64 } else { cfg.opt_upto as i64 }, "list_len": cfg.list_len,
         "choice_at": cfg.choice_at.map(|(a, b)| vec![a, b]), "in_block": cfg.in_block, "insert_begin": cfg.insert_begin,
-        "version_late": cfg.version_late, "prior_identical": cfg.prior_identical, "reselect_terminated": cfg.reselect_terminated, "narrow": cfg.narrow, "ip": cfg.ip.map(|(a, b)| json!([a, b])), "no_label": cfg.no_label, "two_blocks": cfg.two_blocks, "pred": cfg.pred, "wide": cfg.wide}});
+        "version_late": cfg.version_late, "prior_identical": cfg.prior_identical, "reselect_terminated": cfg.reselect_terminated, "narrow": cfg.narrow, "ip": cfg.ip.map(|(a, b)| json!([a, b])), "no_label": cfg.no_label, "two_blocks": cfg.two_blocks, "pred": cfg.pred, "wide": cfg.wide, "fn_kind": cfg.fn_kind}});
     let mut out = SiteResult { viols: vec![], c16: vec![], outcome: "checked" };
     // a parameterised mask whose parameters cannot be expressed through this method's signature: the single
     // `additional_params` list comes after a LATER value parameter, so the grammar order is not reachable
@@ -177,7 +180,23 @@ fn check_site(site: &CallSite, cfg: &Cfg) -> SiteResult {
             }
         }
         if block_ctx {
+            match cfg.fn_kind {
+                1 => {
+                    b.type_int_id(Some(rty), 32, 0);
+                }
+                2 => {
+                    b.type_void_id(Some(rty));
+                }
+                _ => {}
+            }
             b.begin_function(rty, Some(fid), spirv::FunctionControl::NONE, fty).map_err(|e| ("setup".to_string(), format!("{:?}", e)))?;
+            if cfg.fn_kind == 3 {
+                let l0 = b.id();
+                b.begin_block(Some(l0)).map_err(|e| ("setup".to_string(), format!("{:?}", e)))?;
+                b.ret().map_err(|e| ("setup".to_string(), format!("{:?}", e)))?;
+                b.end_function().map_err(|e| ("setup".to_string(), format!("{:?}", e)))?;
+                b.select_function(Some(0)).map_err(|e| ("setup".to_string(), format!("{:?}", e)))?;
+            }
             if cfg.no_label {
                 b.begin_block_no_label(Some(lid)).map_err(|e| ("setup".to_string(), format!("{:?}", e)))?;
             } else {
@@ -326,7 +345,7 @@ fn check_site(site: &CallSite, cfg: &Cfg) -> SiteResult {
         }
         // a terminator inserted in front of other instructions leaves a block the loader would split differently:
         // the round trip is only meaningful when the terminator is last
-        let terminator_not_last = in_blk && (cfg.no_label || cfg.two_blocks) || in_blk && cfg.ip.map_or(false, |(fb, k)| g.in_class("terminator", site.opcode) && site.params.iter().any(|p| p.ty == Ty::InsertPoint) && !(fb && k == 2 || !fb && k == 0)) || in_blk && cfg.reselect_terminated || in_blk && cfg.insert_begin && g.in_class("terminator", site.opcode) && site.params.iter().any(|p| p.ty == Ty::InsertPoint);
+        let terminator_not_last = in_blk && (cfg.no_label || cfg.two_blocks || cfg.fn_kind == 3) || in_blk && cfg.ip.map_or(false, |(fb, k)| g.in_class("terminator", site.opcode) && site.params.iter().any(|p| p.ty == Ty::InsertPoint) && !(fb && k == 2 || !fb && k == 0)) || in_blk && cfg.reselect_terminated || in_blk && cfg.insert_begin && g.in_class("terminator", site.opcode) && site.params.iter().any(|p| p.ty == Ty::InsertPoint);
         if b.selected_function().is_some() {
             b.end_function().map_err(|e| ("setup".to_string(), format!("{:?}", e)))?;
         }
@@ -389,7 +408,7 @@ fn check_site(site: &CallSite, cfg: &Cfg) -> SiteResult {
 }
 
 fn configs(site: &CallSite, tier: Tier) -> Vec<Cfg> {
-    let base = Cfg { explicit_id: false, opt_upto: usize::MAX, list_len: 2, choice_at: None, in_block: false, insert_begin: false, version_late: false, prior_identical: false, reselect_terminated: false, narrow: None, ip: None, no_label: false, two_blocks: false, pred: 0, wide: false };
+    let base = Cfg { explicit_id: false, opt_upto: usize::MAX, list_len: 2, choice_at: None, in_block: false, insert_begin: false, version_late: false, prior_identical: false, reselect_terminated: false, narrow: None, ip: None, no_label: false, two_blocks: false, pred: 0, wide: false, fn_kind: 0 };
     let mut v = vec![base.clone(), Cfg { version_late: true, ..base.clone() }];
     let has_id = site.params.iter().any(is_result_id_param);
     let has_ip = site.params.iter().any(|p| p.ty == Ty::InsertPoint);
@@ -428,6 +447,9 @@ fn configs(site: &CallSite, tier: Tier) -> Vec<Cfg> {
         v.push(Cfg { two_blocks: true, reselect_terminated: true, ..base.clone() });
     }
     if needs_block(site) {
+        for fn_kind in 1..=3 {
+            v.push(Cfg { fn_kind, ..base.clone() });
+        }
         for pred in 1..=4 {
             v.push(Cfg { pred, ..base.clone() });
         }
@@ -814,6 +836,7 @@ fn main() {
                     two_blocks: c["two_blocks"].as_bool().unwrap_or(false),
                     pred: c["pred"].as_u64().unwrap_or(0) as u8,
                     wide: c["wide"].as_bool().unwrap_or(false),
+                    fn_kind: c["fn_kind"].as_u64().unwrap_or(0) as u8,
                 };
                 let res = check_site(site, &cfg);
                 Some(res.viols.iter().chain(res.c16.iter()).map(|v| v.what.clone()).collect())
